@@ -33,20 +33,20 @@ type faultScn struct {
 }
 
 type faultObs struct {
-	ID       int    `json:"id"`
-	Shape    string `json:"shape"`
-	Recv     string `json:"recv"`
-	Kind     string `json:"kind"`
-	Applied  bool   `json:"applied"`  // the fault could be applied to this stream
-	Denotes  string `json:"denotes"`  // what the delivered stream denotes: target | other | unparsable
-	Trailer  bool   `json:"trailer"`  // trailer delivered intact
-	Result   string `json:"result"`   // ok | err | hung
-	Err      string `json:"err"`
-	Dst      string `json:"dst"`      // old | new | other | absent
-	HadOld   bool   `json:"hadold"`
-	Temps    int    `json:"temps"`    // stray entries in the destination directory afterwards
-	SegBits  int    `json:"segbits"`  // size of the file's data segment in bits
-	Scn      json.RawMessage `json:"scn"`
+	ID      int             `json:"id"`
+	Shape   string          `json:"shape"`
+	Recv    string          `json:"recv"`
+	Kind    string          `json:"kind"`
+	Applied bool            `json:"applied"` // the fault could be applied to this stream
+	Denotes string          `json:"denotes"` // what the delivered stream denotes: target | other | unparsable
+	Trailer bool            `json:"trailer"` // trailer delivered intact
+	Result  string          `json:"result"`  // ok | err | hung
+	Err     string          `json:"err"`
+	Dst     string          `json:"dst"` // old | new | other | absent
+	HadOld  bool            `json:"hadold"`
+	Temps   int             `json:"temps"`   // stray entries in the destination directory afterwards
+	SegBits int             `json:"segbits"` // size of the file's data segment in bits
+	Scn     json.RawMessage `json:"scn"`
 }
 
 func init() { handlers["fault"] = faultHandler }
